@@ -3,7 +3,11 @@ package main
 // Witnesses of the *_refuted lemmas of coq/Proofs/Halt.v, replayed on the real application on every run
 // (deterministic parameters). Each is the minimal history of its finding.
 
-import "verif/harness/hx"
+import (
+	"strings"
+
+	"verif/harness/hx"
+)
 
 func witnesses(ops hx.Counter, withPoll bool) []Case {
 	var out []Case
@@ -117,8 +121,8 @@ func witnesses(ops hx.Counter, withPoll bool) []Case {
 	tag("settings_maxima", runSettings(SettingsParams{Seed: 9192, Steps: []string{"MAX_MISCHANCE=18446744073709551615", "UBI_HARDCAP=18446744073709551615", "MINIMUM_PROPOSAL_END_TIME=18446744073709551615", "DOWNTIME_INACTIVE_DURATION=18446744073709551615", "VOTE_QUORUM=1"}}, ops))
 	tag("export_import_then_hooks", runExportImport(9201, ops))
 	// the actor / permission indexes the gov end-blocker enumerates, rewritten by other writers, then proposals of every type
-	for i, pert := range []string{"rotate", "rotate-validator", "unassign-role", "blacklist", "remove-permission", "none"} {
-		tag("actor_perturbed_"+pert, runPerturb(PerturbParams{Seed: 9210 + uint64(i), Individual: []int{0, 2, 4, 6}, ViaRole: []int{1, 3, 5}, Councilor: i%2 == 0, VoteBefore: true, Perturb: pert}, ops))
+	for i, pert := range []string{"rotate", "rotate-validator", "unassign-role", "blacklist", "remove-permission", "none", "rotate-validator-onto-actor-and-away", "rotate-onto-actor"} {
+		tag("actor_perturbed_"+strings.ReplaceAll(pert, "-", "_"), runPerturb(PerturbParams{Seed: 9210 + uint64(i), Individual: []int{0, 2, 4, 6}, ViaRole: []int{1, 3, 5}, Councilor: i%2 == 0, VoteBefore: true, Perturb: pert}, ops))
 	}
 	// key-prefix collisions in stores iterated by a concatenated prefix that block hooks read
 	tag("rr_holder_prefix_node1_node10", runRRPrefix(RRPrefixParams{Seed: 9221, Snap: 1, Monikers: []string{"node1", "node10"}, Short: "6000000000000", Long: "1000000", Register: 2, NBlocks: 8}, ops))
